@@ -1,1 +1,121 @@
-pub fn conc(_ws: &str, _threads: usize, _rounds: usize) -> i32 { 2 }
+//! C38 oracle: one shared analysis (`Arc<EmmyLuaAnalysis>`), many threads issuing read-only queries
+//! (diagnose_file, semantic info of every name token) at the same time; every thread's answers must equal
+//! the answers computed sequentially before. `EmmyLuaAnalysis: Send + Sync` is required by `Arc` + `spawn`
+//! — checked by the compiler here without any help from this crate.
+use crate::ws;
+use emmylua_code_analysis::{EmmyLuaAnalysis, FileId, RenderLevel, humanize_type};
+use emmylua_parser::{LuaAstNode, LuaTokenKind};
+use rowan::NodeOrToken;
+use serde_json::{Value, json};
+use std::sync::{Arc, Barrier};
+
+/// canonical answers for one file: diagnostics + semantic info (rendered type, decl kind) per name token
+fn query_file(analysis: &EmmyLuaAnalysis, id: FileId) -> String {
+    let mut out = String::new();
+    let mut diags = match ws::diagnostics_json(analysis, id) {
+        Value::Array(a) => a.iter().map(|d| d.to_string()).collect::<Vec<_>>(),
+        _ => vec!["<none>".to_string()],
+    };
+    diags.sort();
+    out.push_str(&diags.join("\n"));
+    out.push_str("\n--semantic--\n");
+    if let Some(model) = analysis.compilation.get_semantic_model(id) {
+        let root = model.get_root().clone();
+        for tok in root.syntax().descendants_with_tokens().filter_map(|e| e.into_token()) {
+            if tok.kind() != LuaTokenKind::TkName.into() {
+                continue;
+            }
+            let start: u32 = tok.text_range().start().into();
+            match model.get_semantic_info(NodeOrToken::Token(tok.clone())) {
+                Some(info) => {
+                    let ty = humanize_type(model.get_db(), &info.typ, RenderLevel::Simple);
+                    let decl = info.semantic_decl.map(|d| format!("{d:?}")).unwrap_or_default();
+                    out.push_str(&format!("{start}:{}:{ty}:{decl}\n", tok.text()));
+                }
+                None => out.push_str(&format!("{start}:{}:<none>\n", tok.text())),
+            }
+        }
+    }
+    out
+}
+
+fn fnv(s: &str) -> u64 {
+    let mut h: u64 = 0xcbf29ce484222325;
+    for b in s.as_bytes() {
+        h ^= *b as u64;
+        h = h.wrapping_mul(0x100000001b3);
+    }
+    h
+}
+
+/// `conc WORKSPACE THREADS ROUNDS`
+pub fn conc(main: &str, threads: usize, rounds: usize) -> i32 {
+    let analysis = Arc::new(ws::load(main));
+    let files = ws::main_files(&analysis);
+    let sequential: Vec<String> = files.iter().map(|(_, id)| query_file(&analysis, *id)).collect();
+    // a second sequential pass: queries must not change the answers either
+    let again: Vec<String> = files.iter().map(|(_, id)| query_file(&analysis, *id)).collect();
+    let mut failures = Vec::new();
+    if sequential != again {
+        failures.push(json!({"kind": "sequential-repeat-differs"}));
+    }
+    let seq = Arc::new(sequential);
+    let files = Arc::new(files);
+    let mut queries = 0u64;
+    for round in 0..rounds {
+        let barrier = Arc::new(Barrier::new(threads));
+        let mut handles = Vec::new();
+        for t in 0..threads {
+            let analysis = analysis.clone();
+            let files = files.clone();
+            let seq = seq.clone();
+            let barrier = barrier.clone();
+            handles.push(std::thread::spawn(move || {
+                barrier.wait();
+                let mut bad = Vec::new();
+                let n = files.len();
+                // every thread walks all files, starting at a different one, so that the same file is
+                // queried by several threads at once
+                for k in 0..n {
+                    let i = (k + t * 7 + round) % n;
+                    let got = match vh_common::catch(std::panic::AssertUnwindSafe(|| query_file(&analysis, files[i].1))) {
+                        Ok(s) => s,
+                        Err(e) => format!("<panic {e}>"),
+                    };
+                    if got != seq[i] {
+                        bad.push(json!({"kind": "concurrent-differs-from-sequential", "file": files[i].0, "thread": t,
+                            "sequential_hash": fnv(&seq[i]), "concurrent_hash": fnv(&got),
+                            "first_difference": first_diff(&seq[i], &got)}));
+                    }
+                }
+                (n as u64, bad)
+            }));
+        }
+        for h in handles {
+            match h.join() {
+                Ok((n, bad)) => {
+                    queries += n;
+                    failures.extend(bad);
+                }
+                Err(_) => failures.push(json!({"kind": "thread-panicked"})),
+            }
+        }
+    }
+    let tokens: usize = seq.iter().map(|s| s.lines().count()).sum();
+    println!(
+        "{}",
+        json!({"files": files.len(), "threads": threads, "rounds": rounds, "file_queries": queries,
+               "answer_lines": tokens, "failures": failures,
+               "digest": seq.iter().map(|s| fnv(s)).collect::<Vec<_>>()})
+    );
+    0
+}
+
+fn first_diff(a: &str, b: &str) -> Value {
+    for (x, y) in a.lines().zip(b.lines()) {
+        if x != y {
+            return json!({"sequential": x, "concurrent": y});
+        }
+    }
+    json!({"sequential_lines": a.lines().count(), "concurrent_lines": b.lines().count()})
+}
